@@ -3,7 +3,7 @@ from props import lifecycle
 
 
 def check(run):
-    return lifecycle.check(run, "C08", ["general", "pipeline", "stop", "deep", "manyconns", "tls-close", "starttls-close", "timeout", "long"])
+    return lifecycle.check(run, "C08", ["general", "pipeline", "stop", "deep", "manyconns", "tls-close", "starttls-close", "timeout", "idle", "long"])
 
 
 def replay(run, path):
